@@ -431,7 +431,8 @@ class PersistenceImager(TransformerMixin):
 
     @birth_range.setter
     def birth_range(self, val):
-        self._birth_range = val
+        # a pair of floats: end points given as narrow NumPy integers would wrap in hi - lo
+        self._birth_range = (float(val[0]), float(val[1]))
         self._resolution = (
             int(np.ceil((self.birth_range[1] - self.birth_range[0]) / self.pixel_size)),
             self._resolution[1],
@@ -453,7 +454,7 @@ class PersistenceImager(TransformerMixin):
 
     @pers_range.setter
     def pers_range(self, val):
-        self._pers_range = val
+        self._pers_range = (float(val[0]), float(val[1]))
         self._resolution = (
             self._resolution[0],
             int(np.ceil((self.pers_range[1] - self.pers_range[0]) / self.pixel_size)),
